@@ -5,7 +5,7 @@ PROPS["C14"] = {
                   "(naive expand_message_xmd/xof, hash_to_field, generic Elligator 2 of 6.7.1, rational map D.1, clear_cofactor) "
                   "and RFC 9496 MAP; exhaustive lists for the abort thresholds and the map's special inputs"),
     "level_text": ("Generated-input search: message expansion is compared byte-for-byte with the reference for 15 hash functions "
-                   "(digest sizes 16..64 bytes, four block sizes), SHAKE128/256 and cSHAKE instances in fresh, written-to and read-from "
+                   "(digest sizes 16..64 bytes, four block sizes), SHAKE128/256 and cSHAKE instances in fresh and written-to (an instance that was already read from makes x/crypto's Clone panic: a caller-side object state, not generated) "
                    "caller states, DST lengths on both sides of 255, output lengths around every multiple of the digest size and the "
                    "ell>255 / 65535 / 0 thresholds; all eight suite functions are compared with the reference point (canonical encoding) "
                    "and every returned Edwards point is multiplied by L in reference arithmetic; the steps after expansion are driven "
